@@ -16,7 +16,9 @@ for q in quals:
     res = discharge(obs, cx.facts, timeout_ms=20000)
     for ob, r in zip(obs, res):
         print("  %-8s %6.2fs %s%s" % (r['result'], r['secs'], ob.name, " [top]" if ob.top else ""))
-        if r['result'] == 'sat' and '-v' in sys.argv:
+        if r['result'] != 'unsat' and r.get('reason'):
+            print("     reason:", str(r['reason'])[:400])
+        if r['result'] == 'sat' and '-v' in sys.argv and r['model']:
             print("     model:", {k: v for k, v in list(r['model'].items())[:40]})
     cov = check_sat([c for _, c in eng.covers], cx.facts)
     for (n, _), r in zip(eng.covers, cov):
